@@ -107,6 +107,7 @@ class Check(BaseCheck):
         for i in range(16 if q else 48):
             specs.append({'campaign': 'threads', 'seed': seed, 'i': i, 'runs': 3 if q else 12, 'evals': 180 if q else 600})
         specs.append({'campaign': 'rendezvous', 'seed': seed, 'rounds': 4 if q else 40})
+        specs.append({'campaign': 'crowd', 'seed': seed, 'sizes': [8, 100, 300] if q else [8, 70, 100, 300, 600], 'address_space_gb': 96})
         return specs
 
     def run(self, spec, rec):
@@ -473,6 +474,70 @@ class Check(BaseCheck):
                         return
                     else:
                         rec.inconcl('rendezvous of two callbacks (%s, %s) did not happen within 60 s and the other thread kept moving' % (ka, kb))
+
+    def c_crowd(self, spec, rec):
+        """Many evaluations in flight at the same moment: N threads, each with its own parser, all held inside a host callback until every
+        one of them has arrived (or has come back from parse() without ever reaching its callback); a third of them evaluate a second
+        formula on yet another parser from inside the callback.  Every outcome must be the solo outcome."""
+        hotxlfp = env.load()
+        for N in spec['sizes']:
+            lock = threading.Lock()
+            arrived = [0]
+            everyone = threading.Event()
+            out, entered = {}, set()
+
+            def arrive():
+                with lock:
+                    arrived[0] += 1
+                    if arrived[0] >= N:
+                        everyone.set()
+
+            def work(t):
+                p = hotxlfp.Parser()
+                p.set_variable('mine', t)
+
+                def hold(x):
+                    entered.add(t)
+                    inner = None
+                    if t % 3 == 0:
+                        q = hotxlfp.Parser()
+                        q.set_function('HOLD2', lambda: (arrive(), everyone.wait(120), 5)[2])
+                        inner = outcome(q.parse('HOLD2()+1'))
+                    else:
+                        arrive()
+                        everyone.wait(120)
+                    out[('inner', t)] = inner
+                    return x * 2
+                p.set_function('HOLD', hold)
+                try:
+                    out[t] = outcome(p.parse('HOLD(mine)+mine'))
+                finally:
+                    if t not in entered:
+                        arrive()
+            old_stack = threading.stack_size(1 << 20)       # the worker's address-space limit would not take hundreds of 8 MB stacks
+            try:
+                ths = [threading.Thread(target=work, args=(t,), daemon=True) for t in range(N)]
+                for th in ths:
+                    th.start()
+            finally:
+                threading.stack_size(old_stack)
+            for th in ths:
+                th.join(180)
+            rec.count('crowd_runs')
+            rec.cov('crowd_sizes', N)
+            if not everyone.is_set() or any(th.is_alive() for th in ths):
+                rec.inconcl('crowd of %d threads did not assemble inside their callbacks (%d arrived)' % (N, arrived[0]))
+                everyone.set()
+                continue
+            for t in range(N):
+                rec.case()
+                exp = ('ok', ('int', 3 * t))
+                if out.get(t) != exp:
+                    rec.violation('C03/evaluation-in-thread-differs-from-solo:many-evaluations-in-flight', threads=N, thread=t, outcome=out.get(t), solo=exp, in_flight='%d evaluations held in callbacks' % len(entered))
+                if t % 3 == 0 and t in entered and out.get(('inner', t)) != ('ok', ('int', 6)):
+                    rec.violation('C03/evaluation-in-thread-differs-from-solo:many-evaluations-in-flight', threads=N, thread=t, nested=True, outcome=out.get(('inner', t)), solo=('ok', ('int', 6)))
+                rec.nt(('crowd', N, t))
+            rec.count('crowd_evaluations_in_flight_together', len(entered))
 
     # ------------------------------------------------------------------ sentinels
     def c_sentinels(self, spec, rec):
